@@ -21,7 +21,7 @@ import FalconModel.Forwarded
                                `query_string` = the raw bytes, `server` / `client` as [host, port] with an `int` port.  The ASGI
                                spec makes `scheme` (default "http"), `root_path` (default ""), `server` and `client` (default
                                None) optional: `Lib.omitScheme` / `.omitRootPath` (used only when the value IS the default),
-                               `.server` (given / key missing / None) and `.clientNull` (unknown client as `None` instead of a
+                               `.server` (given / key missing / None) and `.clientNull` (unknown client as `None` - handled like a missing key since fix 9e26a7e - instead of a
                                missing key).
     * WSGI accessors           `falcon/request.py`: `Request.__init__` (method, path with the `isascii()` fast path and
                                `path.encode('iso-8859-1').decode('utf-8', 'replace')`, `strip_url_path_trailing_slash`,
@@ -305,28 +305,38 @@ def asgiNetloc (s : Scope) (store : Dict) : Str :=
     if secure s then (if port != 443 then name ++ 58 :: natStr port else name)
     else (if port != 80 then name ++ 58 :: natStr port else name)
 
-/-- `client, __ = self.scope['client']` with `except KeyError: client = '127.0.0.1'` (an explicit None: TypeError) -/
+/-- `client, __ = self.scope['client']` with `except (KeyError, TypeError): client = '127.0.0.1'`: a missing key and an explicit
+    None (the spec's default, e.g. a Unix socket) both give the loopback address (fix 9e26a7e, finding F36) -/
 def asgiClient (s : Scope) : Out Str :=
+  match s.client with
+  | .val a => .ok a.1
+  | .missing => .ok LOOPBACK
+  | .null => .ok LOOPBACK
+/-- the code BEFORE fix 9e26a7e (`except KeyError` only): `client, __ = None` is a TypeError.  Used by the regression witness only. -/
+def asgiClientPinned (s : Scope) : Out Str :=
   match s.client with
   | .val a => .ok a.1
   | .missing => .ok LOOPBACK
   | .null => .exc
 
-def asgiAccessRoute (s : Scope) (store : Dict) : Out (List Hp.Str) :=
-  match asgiClient s with
+/-- `access_route` given the outcome of the client lookup -/
+def asgiAccessRouteOf (client : Out Str) (store : Dict) : Out (List Hp.Str) :=
+  match client with
   | .ok cl => .ok (Fw.accessRoute true ((dget store fwdLow).map chars) ((dget store xffLow).map chars) ((dget store xriLow).map chars) (chars cl))
   | .bad400 => .bad400
   | .exc => .exc
+def asgiAccessRoute (s : Scope) (store : Dict) : Out (List Hp.Str) := asgiAccessRouteOf (asgiClient s) store
 
 /-- `route = self.access_route; return route[-1]` (IndexError on an empty route) -/
-def asgiRemoteAddr (s : Scope) (store : Dict) : Out Hp.Str :=
-  match asgiAccessRoute s store with
+def asgiRemoteAddrOf (client : Out Str) (store : Dict) : Out Hp.Str :=
+  match asgiAccessRouteOf client store with
   | .ok route =>
     match route.getLast? with
     | some a => .ok a
     | none => .exc
   | .bad400 => .bad400
   | .exc => .exc
+def asgiRemoteAddr (s : Scope) (store : Dict) : Out Hp.Str := asgiRemoteAddrOf (asgiClient s) store
 
 /-! ### everything the two request classes say about the request line and the connection, as one record -/
 structure View where
@@ -375,8 +385,8 @@ def wfClient (c : Conn) : Bool :=
   match c.client with
   | some a => !a.1.isEmpty
   | none => true
-/-- the ASGI server tells its own address, and reports an unknown client by leaving the key out (not as None) -/
-def wfLib (l : Lib) : Bool := decide (l.server = .given) && !l.clientNull
+/-- the ASGI server tells its own address (how it reports an unknown client - key left out or None - does not matter) -/
+def wfLib (l : Lib) : Bool := decide (l.server = .given)
 def wfConn (c : Conn) (l : Lib) : Bool :=
   wfTarget c && wfMethod c && wfScheme c && wfRoot c && wfClient c && wfLib l && Wr.wfReq (toHReq c)
 
